@@ -5,21 +5,15 @@ import BrushVerif.Model.Wire
 Mirrors `brush-core/src/expansion.rs` (`Expansion::{classify, polymorphic_len, polymorphic_subslice}`,
 the arms of `expand_parameter_expr` for `- = ? +`, `${#v}`, `# ## % %%`, `${v:o:l}`,
 `expand_parameter_without_indirect`, `undefined_expansion`) and the four `remove_*_matching_*`
-loops of `brush-core/src/patterns.rs` — including their present defects.  Strings are `List Char`;
-the pattern matcher is a parameter (`m : Str → Bool`, "the anchored regex accepts this candidate").
+loops of `brush-core/src/patterns.rs`, as they stand after the repairs of the shortest-match loops,
+of the character-counting length, of the negative substring length, of the list null-ness and of
+`"${@+w}"` over no elements.  Strings are `List Char`; the pattern matcher is a parameter
+(`m : Str → Bool`, "the anchored regex accepts this candidate").
 -/
 namespace BrushVerif.ParamOps
 open BrushVerif.Wire
 
 /-! ## values -/
-
-/-- number of bytes of the UTF-8 encoding (`String::len` counts these) -/
-def utf8Len (c : Char) : Nat :=
-  if c.toNat < 0x80 then 1 else if c.toNat < 0x800 then 2 else if c.toNat < 0x10000 then 3 else 4
-
-def byteLen : Str → Nat
-  | [] => 0
-  | c :: cs => utf8Len c + byteLen cs
 
 /-- `struct Expansion` (every field here is a single piece) -/
 structure Expansion where
@@ -33,9 +27,10 @@ inductive PState where
   | undefined | definedEmpty | nonZero
   deriving Repr, DecidableEq
 
-/-- `Expansion::classify` -/
+/-- `Expansion::classify`: two or more elements of a list expand to text that holds the separators
+between them, so they are not null even when every element is empty -/
 def classify (e : Expansion) : PState :=
-  let nonEmpty := e.fields.any (fun f => !f.isEmpty)
+  let nonEmpty := e.fields.any (fun f => !f.isEmpty) || (e.fromArray && decide (1 < e.fields.length))
   if e.undefined then .undefined
   else if nonEmpty then .nonZero
   else if e.fields.isEmpty then .undefined
@@ -47,12 +42,9 @@ def ofStr (s : Str) : Expansion := { fields := [s], concatenate := true, fromArr
 /-- `Expansion::undefined()` -/
 def undefinedExp : Expansion := { fields := [[]], concatenate := true, fromArray := false, undefined := true }
 
-/-- `Expansion::polymorphic_len`: elements of an array, **bytes** of a string (`String::len`). -/
+/-- `Expansion::polymorphic_len`: elements of an array, characters of a string
+(`ExpansionPiece::len` is `chars().count()`). -/
 def polyLen (e : Expansion) : Nat :=
-  if e.fromArray then e.fields.length else (e.fields.map byteLen).foldl (· + ·) 0
-
-/-- the length the operators ought to use: elements of an array, characters of a string -/
-def polyLenChars (e : Expansion) : Nat :=
   if e.fromArray then e.fields.length else (e.fields.map List.length).foldl (· + ·) 0
 
 /-! ## `${v:offset:length}` -/
@@ -89,54 +81,44 @@ def polySubslice (e : Expansion) (index end_ : Nat) : Res :=
     else
       .ok { e with fields := sliceFields e.fields index len }
 
-/-- the `i64` arithmetic of the `Substring` arm: (offset, end) handed to `polymorphic_subslice`.
-`plen` is `polymorphic_len()`.  A negative length has `plen` added and is then still used as a
-*length*. -/
-def substrBounds (plen : Int) (off : Int) (len : Option Int) : Int × Int :=
-  let off1 := if off < 0 then (if off + plen < 0 then plen else off + plen) else off
-  let off2 := min off1 plen
-  let end_ := match len with
-    | some l =>
-      let l1 := if l < 0 then l + plen else l
-      let l2 := min l1 (plen - off2)
-      off2 + l2
-    | none => plen
-  (off2, end_)
-
-/-- the `Substring` arm after the parameter has been expanded (and `$0` inserted for `$@`) -/
-def substring (e : Expansion) (off : Int) (len : Option Int) : Res :=
-  let b := substrBounds (Int.ofNat (polyLen e)) off len
-  polySubslice e (asUsize b.1) (asUsize b.2)
-
-/-- Proposed repair: lengths in characters, a negative length is an end offset counted from the
-end, and an end before the start is an error.  (`substring` with the two defects removed.) -/
-def substrBoundsFixed (plen : Int) (off : Int) (len : Option Int) : Option (Int × Int) :=
+/-- The `i64` arithmetic of the `Substring` arm: (offset, end) handed to `polymorphic_subslice`,
+or `none` for "substring expression < 0".  `plen` is `polymorphic_len()`; `undefined`, `fromArray`
+are the flags of the expanded parameter, `positional` says that it is `$@` / `$*` (with `$0` put in
+front).  A negative length is an end offset counted from the end of a string; it is an error when
+it falls before the start, and on a list — except where the offset selects nothing anyway. -/
+def substrBounds (plen : Int) (undefined fromArray positional : Bool) (off : Int) (len : Option Int) :
+    Option (Int × Int) :=
+  let outOfRange : Bool := decide (off > plen) || (decide (off < 0) && decide (off + plen < 0))
   let off1 := if off < 0 then (if off + plen < 0 then plen else off + plen) else off
   let off2 := min off1 plen
   match len with
   | some l =>
     if l < 0 then
-      -- bash yields the empty string, not an error, when the offset itself is out of range
-      if off < 0 ∧ off + plen < 0 ∨ off > plen then some (plen, plen)
-      else if plen + l < off2 then none else some (off2, plen + l)
+      let selectsNothing := outOfRange || undefined || (fromArray && !positional && decide (off2 = plen))
+      if selectsNothing then some (off2, plen)
+      else if fromArray || decide (plen + l < off2) then none
+      else some (off2, plen + l)
     else some (off2, off2 + min l (plen - off2))
   | none => some (off2, plen)
 
-def substringFixed (e : Expansion) (off : Int) (len : Option Int) : Res :=
-  match substrBoundsFixed (Int.ofNat (polyLenChars e)) off len with
+/-- the `Substring` arm after the parameter has been expanded (and `$0` inserted for `$@`) -/
+def substring (e : Expansion) (positional : Bool) (off : Int) (len : Option Int) : Res :=
+  match substrBounds (Int.ofNat (polyLen e)) e.undefined e.fromArray positional off len with
   | none => .err
   | some b => polySubslice e (asUsize b.1) (asUsize b.2)
 
 /-! ## `# ## % %%` — the four loops of patterns.rs over a matcher -/
 
-/-- `remove_smallest_matching_prefix`: candidates are the prefixes of 1, 2, … n characters
-(the empty prefix is never tried).  `k` counts the characters already consumed. -/
+/-- the loop of `remove_smallest_matching_prefix`: the prefixes of 1, 2, … n characters.
+`k` counts the characters already consumed. -/
 def smallestPrefixGo (m : Str → Bool) (s : Str) : Nat → Nat → Str
   | 0, _ => s
   | fuel + 1, k =>
     if m (s.take (k + 1)) then s.drop (k + 1) else smallestPrefixGo m s fuel (k + 1)
 
-def removeSmallestPrefix (m : Str → Bool) (s : Str) : Str := smallestPrefixGo m s s.length 0
+/-- `remove_smallest_matching_prefix`: the empty prefix first, then the loop -/
+def removeSmallestPrefix (m : Str → Bool) (s : Str) : Str :=
+  if m [] then s else smallestPrefixGo m s s.length 0
 
 /-- `remove_largest_matching_prefix`: prefixes of n, n-1, … 1 characters. -/
 def largestPrefixGo (m : Str → Bool) (s : Str) : Nat → Str
@@ -152,20 +134,14 @@ def largestSuffixGo (m : Str → Bool) (s : Str) : Nat → Nat → Str
 
 def removeLargestSuffix (m : Str → Bool) (s : Str) : Str := largestSuffixGo m s s.length 0
 
-/-- `remove_smallest_matching_suffix`: suffixes starting at character n-1, n-2, … 0
-(the empty suffix is never tried). -/
+/-- the loop of `remove_smallest_matching_suffix`: suffixes starting at character n-1, n-2, … 0 -/
 def smallestSuffixGo (m : Str → Bool) (s : Str) : Nat → Str
   | 0 => s
   | i + 1 => if m (s.drop i) then s.take i else smallestSuffixGo m s i
 
-def removeSmallestSuffix (m : Str → Bool) (s : Str) : Str := smallestSuffixGo m s s.length
-
-/-- Proposed repair of the two shortest-match loops: try the empty candidate first. -/
-def removeSmallestPrefixFixed (m : Str → Bool) (s : Str) : Str :=
-  if m [] then s else removeSmallestPrefix m s
-
-def removeSmallestSuffixFixed (m : Str → Bool) (s : Str) : Str :=
-  if m [] then s else removeSmallestSuffix m s
+/-- `remove_smallest_matching_suffix`: the empty suffix first, then the loop -/
+def removeSmallestSuffix (m : Str → Bool) (s : Str) : Str :=
+  if m [] then s else smallestSuffixGo m s s.length
 
 /-- `transform_expansion`: a string function applied to every field -/
 def mapFields (e : Expansion) (f : Str → Str) : Expansion := { e with fields := e.fields.map f }
@@ -277,7 +253,10 @@ def expandExpr (p : Param) (nounset : Bool) (m : Str → Bool) : Op → Outcome
       let e := match p with
         | .posAll _ _ => { e with fields := shellName :: e.fields }
         | _ => e
-      { res := substring e off len }
+      let positional := match p with
+        | .posAll _ _ => true
+        | _ => false
+      { res := substring e positional off len }
     | none => { res := .err }
   | .test op colon word =>
     match expandParam p true nounset with
@@ -286,7 +265,10 @@ def expandExpr (p : Param) (nounset : Bool) (m : Str → Bool) : Op → Outcome
       match testAction op colon (classify e) with
       | .param => { res := .ok e }
       | .word => { res := .ok (ofStr word) }
-      | .null => { res := .ok (ofStr []) }
+      | .null =>
+        -- `"${@+word}"` over no elements expands like `"$@"`: to no field at all
+        if e.fromArray && !e.concatenate && e.fields.isEmpty then { res := .ok e }
+        else { res := .ok (ofStr []) }
       | .error => { res := .err }
       | .assign =>
         match p with
@@ -330,20 +312,5 @@ def globMatch : Pat → Str → Bool
   | _ :: _, [] => false
   | e :: ps, c :: cs => elemMatches e c && globMatch ps cs
 termination_by ps s => ps.length + s.length
-
-/-- all ways of cutting `s` at line boundaries: substrings that start at 0 or after a newline and
-end at the end or before a newline -/
-def lineAligned (s : Str) : List Str :=
-  let n := s.length
-  (List.range (n + 1)).flatMap fun i =>
-    if i = 0 ∨ s[i - 1]? = some '\n' then
-      (List.range (n + 1 - i)).filterMap fun d =>
-        let j := i + d
-        if j = n ∨ s[j]? = some '\n' then some ((s.drop i).take d) else none
-    else []
-
-/-- What brush's regex accepts: the pattern is compiled as `(?ms)^…$` and tried with `is_match`
-(a search), so `^` and `$` also match next to any newline of the candidate. -/
-def brushMatch (p : Pat) (s : Str) : Bool := (lineAligned s).any (globMatch p)
 
 end BrushVerif.ParamOps
